@@ -1564,8 +1564,9 @@ pub fn c08_random_improve<S: Src>(_s: &mut S) {
     let mut failures: Vec<String> = Vec::new();
     // tokens among the inputs (picked, or already in the builder) while the outputs are plain ADA: the fee top-up must still run
     for variant in 0..2u8 {
-        for strategy in [CoinSelectionStrategyCIP2::RandomImprove, CoinSelectionStrategyCIP2::RandomImproveMultiAsset] {
+        for multi in [false, true] {
             for _round in 0..20 {
+                let strategy = if multi { CoinSelectionStrategyCIP2::RandomImproveMultiAsset } else { CoinSelectionStrategyCIP2::RandomImprove };
                 let tok = |q: u64| { let mut ma = MultiAsset::new(); ma.set_asset(&ScriptHash::from([7u8; 28]), &AssetName::new(vec![1]).unwrap(), &bn(q)); ma };
                 let mut tb = TransactionBuilder::new(&config(true));
                 if tb.add_output(&TransactionOutput::new(&addr(0, 50), &Value::new(&bn(2_000_000)))).is_err() { continue; }
